@@ -37,9 +37,7 @@ func (bv *bview) produceExit(mc *MsgCase, clockMs int64) (*plan, string) {
 		}
 		switch {
 		case !refspec.IsActive(v, cur):
-			if v.ActivationEpoch == refspec.FarFutureEpoch {
-				inactive = append(inactive, uint64(i))
-			}
+			inactive = append(inactive, uint64(i)) // never activated, or already exited
 		case v.ExitEpoch != refspec.FarFutureEpoch:
 			exiting = append(exiting, uint64(i))
 		case cur < v.ActivationEpoch+sp.P.SHARD_COMMITTEE_PERIOD:
